@@ -128,7 +128,191 @@ def translate(impl_root):
     if len(hs) != 1:
         raise TranslateError("H0 = <const> * h not found exactly once in Cosmo.__init__")
     _both("H_SCALE", _src(py, hs[0]), "H0 = const*h", out)
+    out.append(_extract_parms(cls[0]))
+    out.append(_copy_and_reduce(cls[0]))
     return HEADER + "\n".join(out) + "\n"
+
+
+# ---------------------------------------------------------------------------------------------
+# T-int style translation of Cosmo.extract_parms (python ast -> Gallina state transformer).
+# State: flat : bool, omega_m omega_l : num, omega_k : option num (None = python None).
+# Subset: `if/elif/else` on `omega_k is None`, `omega_k is not None`, `omega_k == 0.0`, `flat`;
+# assignments of True/False to flat, of 0.0 / 1.0 / names / differences to omega_*; a final
+# `return flat, omega_m, omega_l, omega_k`.  Anything else raises TranslateError.
+# ---------------------------------------------------------------------------------------------
+_ST = "(flat, om, ol, ok)"
+_VAR = {"flat": "flat", "omega_m": "om", "omega_l": "ol", "omega_k": "ok"}
+
+
+def _num(e):
+    if isinstance(e, ast.Constant) and type(e.value) is float:
+        if e.value == 0.0:
+            return "zero"
+        if e.value == 1.0:
+            return "one"
+        raise TranslateError("extract_parms: numeric literal %r outside the subset (0.0, 1.0)" % (e.value,))
+    if isinstance(e, ast.Name) and e.id in ("omega_m", "omega_l"):
+        return _VAR[e.id]
+    if isinstance(e, ast.BinOp) and isinstance(e.op, ast.Sub):
+        return "(sub %s %s)" % (_num(e.left), _num(e.right))
+    raise TranslateError("extract_parms: expression outside the subset: %s" % ast.dump(e))
+
+
+def _cond(e):
+    if isinstance(e, ast.Name) and e.id == "flat":
+        return "flat"
+    if (isinstance(e, ast.Compare) and len(e.ops) == 1 and isinstance(e.left, ast.Name) and e.left.id == "omega_k"
+            and len(e.comparators) == 1):
+        op, rhs = e.ops[0], e.comparators[0]
+        if isinstance(rhs, ast.Constant) and rhs.value is None:
+            if isinstance(op, ast.IsNot):
+                return "(match ok with Some _ => true | None => false end)"
+            if isinstance(op, ast.Is):
+                return "(match ok with Some _ => false | None => true end)"
+        if isinstance(op, ast.Eq) and isinstance(rhs, ast.Constant) and type(rhs.value) is float and rhs.value == 0.0:
+            # python: None == 0.0 is False
+            return "(match ok with Some k => is_zero k | None => false end)"
+    raise TranslateError("extract_parms: condition outside the subset: %s" % ast.dump(e))
+
+
+def _stmt(st):
+    """Gallina expression of the state after the statement, in terms of flat om ol ok"""
+    if isinstance(st, ast.Assign) and len(st.targets) == 1 and isinstance(st.targets[0], ast.Name):
+        t = st.targets[0].id
+        if t == "flat":
+            if isinstance(st.value, ast.Constant) and isinstance(st.value.value, bool):
+                return "(%s, om, ol, ok)" % ("true" if st.value.value else "false")
+            raise TranslateError("extract_parms: flat assigned a non-literal")
+        if t == "omega_m":
+            return "(flat, %s, ol, ok)" % _num(st.value)
+        if t == "omega_l":
+            return "(flat, om, %s, ok)" % _num(st.value)
+        if t == "omega_k":
+            return "(flat, om, ol, Some %s)" % _num(st.value)
+        raise TranslateError("extract_parms: assignment to %r" % t)
+    if isinstance(st, ast.If):
+        return "(if %s then %s else %s)" % (_cond(st.test), _block(st.body), _block(st.orelse))
+    if isinstance(st, ast.Expr) and isinstance(st.value, ast.Constant) and isinstance(st.value.value, str):
+        return _ST      # docstring / bare string
+    raise TranslateError("extract_parms: statement outside the subset: %s" % type(st).__name__)
+
+
+def _block(body):
+    out = ""
+    for st in body:
+        out += "let '%s := %s in " % (_ST, _stmt(st))
+    return "(" + out + _ST + ")"
+
+
+def _extract_parms(cls):
+    fn = [n for n in cls.body if isinstance(n, ast.FunctionDef) and n.name == "extract_parms"]
+    if len(fn) != 1:
+        raise TranslateError("Cosmo.extract_parms not found exactly once")
+    a = fn[0].args
+    if [x.arg for x in a.args] != ["self", "omega_m", "omega_l", "omega_k", "flat"] or a.defaults or a.vararg or a.kwarg:
+        raise TranslateError("extract_parms signature changed")
+    body = list(fn[0].body)
+    if not body or not isinstance(body[-1], ast.Return):
+        raise TranslateError("extract_parms does not end in return")
+    ret = body.pop().value
+    if not (isinstance(ret, ast.Tuple) and [getattr(e, "id", None) for e in ret.elts] == ["flat", "omega_m", "omega_l", "omega_k"]):
+        raise TranslateError("extract_parms does not return (flat, omega_m, omega_l, omega_k)")
+    for n in ast.walk(ast.Module(body=body, type_ignores=[])):
+        if isinstance(n, (ast.Return, ast.Raise, ast.For, ast.While, ast.Try, ast.With, ast.Call)):
+            raise TranslateError("extract_parms: %s outside the subset" % type(n).__name__)
+    return ("(* Cosmo.extract_parms, translated statement by statement (omega_k : option num, None = python None) *)\n"
+            "Section GenExtract.\n  Context {num : Type}.\n"
+            "  Variables (zero one : num) (sub : num -> num -> num) (is_zero : num -> bool).\n"
+            "  Definition extract_parms_src (om ol : num) (ok : option num) (flat : bool) : bool * num * num * option num :=\n"
+            "    %s.\nEnd GenExtract." % _block(body))
+
+
+def _self_attr(e, private):
+    """self._x (private) or self.x() (accessor) -> 'x'"""
+    if private:
+        if isinstance(e, ast.Attribute) and isinstance(e.value, ast.Name) and e.value.id == "self" and e.attr.startswith("_"):
+            return e.attr[1:]
+    else:
+        if (isinstance(e, ast.Call) and not e.args and not e.keywords and isinstance(e.func, ast.Attribute)
+                and isinstance(e.func.value, ast.Name) and e.func.value.id == "self"):
+            return e.func.attr
+    raise TranslateError("copy/_pars: expression outside the subset: %s" % ast.dump(e))
+
+
+def _copy_and_reduce(cls):
+    """copy() -> Cosmo(H0=self._H0, ...) and _pars -> (self.H0(), None, bool(self.flat()), ...) as Gallina tuples
+    in constructor-argument order (H0, h, flat, omega_m, omega_l, omega_k); __copy__/__deepcopy__ must return
+    self.copy() and __reduce__ (self.__class__, (self._pars))."""
+    def one(name):
+        fn = [n for n in cls.body if isinstance(n, ast.FunctionDef) and n.name == name]
+        if len(fn) != 1:
+            raise TranslateError("Cosmo.%s not found exactly once" % name)
+        body = [s for s in fn[0].body if not (isinstance(s, ast.Expr) and isinstance(s.value, ast.Constant))]
+        if len(body) != 1 or not isinstance(body[0], ast.Return):
+            raise TranslateError("Cosmo.%s is not a single return" % name)
+        return body[0].value
+    order = ["H0", "h", "flat", "omega_m", "omega_l", "omega_k"]
+    # copy
+    c = one("copy")
+    if not (isinstance(c, ast.Call) and isinstance(c.func, ast.Name) and c.func.id == "Cosmo" and not c.args):
+        raise TranslateError("copy() is not Cosmo(keyword=...)")
+    kw = {}
+    for k in c.keywords:
+        if k.arg not in order or k.arg in kw:
+            raise TranslateError("copy(): keyword %r" % k.arg)
+        kw[k.arg] = _self_attr(k.value, True)
+    var = {"H0": "sH0", "flat": "sflat", "omega_m": "som", "omega_l": "sol", "omega_k": "sok"}
+    parts = []
+    for k in order:
+        if k not in kw:
+            if k != "h":
+                raise TranslateError("copy(): %s not passed" % k)
+            parts.append("None")
+        elif k == "h":
+            raise TranslateError("copy(): h passed")
+        else:
+            if kw[k] not in var:
+                raise TranslateError("copy(): self._%s" % kw[k])
+            parts.append(var[kw[k]])
+    for nm in ("__copy__", "__deepcopy__"):
+        r = one(nm)
+        if _self_attr(r, False) != "copy":
+            raise TranslateError("%s does not return self.copy()" % nm)
+    copy_def = ("Definition copy_args_src {num : Type} (sH0 : num) (sflat : bool) (som sol : num) (sok : option num)\n"
+                "  : num * option num * bool * num * num * option num := (%s)." % ", ".join(parts))
+    # _pars / __reduce__
+    p = one("_pars")
+    if not (isinstance(p, ast.Tuple) and len(p.elts) == 6):
+        raise TranslateError("_pars is not a 6-tuple")
+    acc = {"H0": "rH0", "flat": "rflat", "omega_m": "rom", "omega_l": "rol", "omega_k": "rok"}
+    parts = []
+    for k, e in zip(order, p.elts):
+        if isinstance(e, ast.Constant) and e.value is None:
+            if k not in ("h", "omega_k"):
+                raise TranslateError("_pars: None for %s" % k)
+            parts.append("None")
+            continue
+        if k == "flat":
+            if not (isinstance(e, ast.Call) and isinstance(e.func, ast.Name) and e.func.id == "bool" and len(e.args) == 1):
+                raise TranslateError("_pars: flat is not bool(self.flat())")
+            e = e.args[0]
+        a = _self_attr(e, False)
+        if a not in acc:
+            raise TranslateError("_pars: self.%s()" % a)
+        if (k in ("H0", "omega_m", "omega_l", "omega_k")) != (a != "flat"):
+            raise TranslateError("_pars: type mismatch at %s" % k)
+        v = acc[a]
+        parts.append("Some %s" % v if k in ("h", "omega_k") else v)
+    r = one("__reduce__")
+    ok = (isinstance(r, ast.Tuple) and len(r.elts) == 2 and isinstance(r.elts[0], ast.Attribute) and r.elts[0].attr == "__class__"
+          and isinstance(r.elts[1], ast.Attribute) and r.elts[1].attr == "_pars")
+    if not ok:
+        raise TranslateError("__reduce__ is not (self.__class__, self._pars)")
+    red_def = ("Definition reduce_args_src {num : Type} (rH0 : num) (rflat : bool) (rom rol rok : num)\n"
+               "  : num * option num * bool * num * num * option num := (%s)." % ", ".join(parts))
+    return ("(* Cosmo.copy / __copy__ / __deepcopy__ and _pars / __reduce__: constructor arguments (H0, h, flat, omega_m,\n"
+            "   omega_l, omega_k) of the new instance, in terms of the remembered inputs / the accessor values *)\n"
+            + copy_def + "\n" + red_def)
 
 
 def _src(text, node):
